@@ -238,10 +238,16 @@ def gen_fixed():
     s = Seq("fixed-neg-ratio", "fixed"); s.add("new", 0, 1, 1); s.add("process", hx(-1.0), 10, 10, 0, 0, 0, 0, 0); out.append(s)
     s = Seq("fixed-zero-ratio-reset", "fixed"); s.add("new", 0, 1, 1); s.add("process", hx(0.0), 10, 10, 0, 0, 0, 0, 0)
     s.add("error", 0); s.add("reset", 0); s.add("process", hx(1.0), 10, 10, 0, 0, 0, 0, 0); out.append(s)
-    # witness of theorem channels_invariant_reset_violated / failed_create_then_reset_crashes: a finite positive ratio the
-    # engine refuses (2^-32), error reported, src_reset drops it, the next call crashes -- model and code must agree
-    s = Seq("fixed-failed-create-reset", "fixed"); s.add("new", 0, 1, 1); s.add("process", "3df0000000000000", 10, 10, 0, 0, 0, 0, 0)
-    s.add("error", 0); s.add("reset", 0); s.add("error", 0); s.add("process", hx(1.0), 10, 10, 0, 0, 0, 0, 0); out.append(s)
+    # regression for finding F40 (fixed by /repo b5a678f; theorem failed_create_then_reset_reports_error): a finite positive ratio
+    # the engine refuses (2^-32) tears the object down; src_reset must refuse it (-1) and every later call must report the
+    # error instead of crashing -- checked op by op against the model and by `failed_create_regression` below
+    for cid, fn in ((0, 0), (4, 0), (1, 1)):
+        s = Seq("fixed-failed-create-reset-%d" % cid, "fixed")
+        s.add("cbnew" if fn else "new", cid, 1, 1, *([1] if fn else []))
+        s.add("process", "3df0000000000000", 10, 10, 0, 0, 0, 0, 0) if not fn else s.add("read", "3df0000000000000", 10, 0, 0, "5,0")
+        s.add("error", 0); s.add("reset", 0); s.add("error", 0); s.add("process", hx(1.0), 10, 10, 0, 0, 0, 0, 0)
+        s.add("read", hx(1.0), 10, 0, 0, "-"); s.add("setratio", hx(1.0), 0); s.add("reset", 0); s.add("error", 0); s.add("delete", 0)
+        out.append(s)
     # end of input signalled without buffers (both pointers NULL): the engines are flushed at once (/repo ab95331)
     s = Seq("fixed-no-buffers", "fixed"); s.add("new", 2, 2, 1); s.add("process", hx(2.0), 50, 200, 0, 0, 0, 0, 0)
     s.add("process", hx(2.0), 0, 0, 1, 1, 1, 0, 0); s.add("process", hx(2.0), 0, 300, 1, 0, 0, 0, 0); s.add("process", hx(2.0), 0, 300, 1, 0, 0, 0, 0)
@@ -426,14 +432,16 @@ def falsify(ctx, seqs, res, viol, known):
                 elif t[0] in ("process", "read") and cid is not None:
                     rb = bitsd(int(t[1], 16))
                     bad_now = bad_ratio(rb)
-                    if bad_now or not valid_run:
-                        allowed = "out-of-contract: invalid src_ratio on this converter (see assumptions)"
+                    if bad_now:
+                        allowed = "out-of-contract: invalid src_ratio in this call (see assumptions)"
+                    elif not valid_run:
+                        allowed = "F40"     # a call with a valid ratio crashes after an earlier error on this converter
                 elif t[0] == "simple":
                     rb = bitsd(int(t[3], 16))
                     if math.isinf(rb):
                         allowed = "out-of-contract: src_ratio = inf"
-                if allowed == "F32":
-                    known.setdefault("F32", (s, k))
+                if allowed in ("F32", "F40"):
+                    known.setdefault(allowed, (s, k))
                 elif allowed is None:
                     viol.append((s, k, "crash (%s) inside `%s` with in-contract arguments" % (status, op)))
                 break
@@ -535,6 +543,26 @@ def falsify(ctx, seqs, res, viol, known):
                 elif kv.get("used", "0") != "0" or kv.get("gen", "0") != "0":
                     known.setdefault("F33", (s, k))
     return stats
+
+
+def failed_create_regression(seqs, res, viol, known):
+    """F40 regression: once a call has reported an error because the engine refused to be created, src_reset returns an error
+    code, src_error keeps reporting, processing calls return error codes with zero counts, nothing crashes."""
+    for s in seqs:
+        if not s.label.startswith("fixed-failed-create-reset"):
+            continue
+        ops, status = res.get(s.label, ([], "missing"))
+        if not status.startswith("exit 0") or len(ops) < len(s.ops):
+            known.setdefault("F40", (s, max(len(ops) - 1, 0))); continue
+        for k, (op, rec) in enumerate(zip(s.ops, ops)):
+            if k == 0 or op.startswith("delete"):
+                continue
+            r = rec[1] or ""
+            bad = ("rc=0" in r.split()) or (op.startswith("read") and "ret=0" not in r and "ret=-1" not in r) or \
+                  (op.startswith("process") and ("used=0" not in r or "gen=0" not in r))
+            if bad:
+                viol.append((s, k, "after a failed engine creation `%s` answered `%s` (an error code and zero counts are due)" % (op, r)))
+                break
 
 
 def reset_equals_fresh(ctx, exe, viol, known):
@@ -866,6 +894,7 @@ def run(ctx):
     # ---------- falsifier
     stats = falsify(ctx, seqs, res, viol, known)
     ctx.cov["falsifier"] = stats
+    failed_create_regression(seqs, res, viol, known)
     reset_equals_fresh(ctx, exe, viol, known)
     nidiom = idiom_streams(ctx, exe, viol)
     # sanitizer reports: the NULL dereferences are the crashes the model predicts (compared op by op above); anything else
@@ -913,6 +942,7 @@ def run(ctx):
     for fid in sorted(known):
         what = {"F31": "src_reset on converter ids 3/4 (RESET_ON_CLEAR) re-creates the engine at the OLD ratio; a different src_ratio afterwards is refused and the refusal is lost in soxr_set_error: totals follow the old ratio",
                 "F32": "src_error(NULL) dereferences the NULL converter (crash instead of an error code)",
+                "F40": "a call with valid arguments crashes after an earlier error on the converter (src_reset / soxr_clear revived an object torn down by a failed resampler_create / initialise)",
                 "F33": "src_simple reports non-zero (uninitialised) counts when soxr_create fails (src_ratio <= 0 or NaN)"}[fid]
         if fid in active:
             ctx.known(fid, what)
